@@ -86,9 +86,10 @@ def _sig_server_cancel_cw(case, params):
 
 
 def _sig_client_eof_overwrite(case, params):
-    """client, two close() calls racing a blocked receive(): 1000 reported"""
+    """client, two close() calls racing a blocked receive(): the receive() and the second close() read each other's
+    messages; 1000 (EofStream handler) or 1006 (close() finds the buffer empty) reported for a clean handshake"""
     toks = _tok_list(case)
-    return (case.get("side") == "C" and case.get("kind") == "close_code" and case.get("observed_code") == 1000
+    return (case.get("side") == "C" and case.get("kind") == "close_code" and case.get("observed_code") in (1000, 1006)
             and sum(1 for t in toks if t[0] == "c" and t[2] == "k") >= 2 and any(t[0] == "c" and t[2] == "r" for t in toks))
 
 
